@@ -57,6 +57,12 @@ func init() {
 			// schedule perturbation for the concurrency phase
 			return []string{"GOMAXPROCS=" + []string{"16", "4", "2", "8"}[batch%4]}
 		},
+		TimeoutSec: func(t string) int {
+			if t == ev.Thorough {
+				return 3600
+			}
+			return 900
+		},
 		Run: run,
 	})
 }
